@@ -369,3 +369,40 @@ MUTANTS += [
       "            del self._shares, self._shares_from_server, self._active_share_map\n", None),
     M("vanish-fetcher-stop", FETCH, "    def stop(self):\n        if self._running:\n", "    def shutdown(self):\n        if self._running:\n", "ANALYSIS-ERROR"),
 ]
+
+
+# Cross-property robustness: faithful refactors that live as benign variants of other properties (bookkeeping of
+# _block_request_activity moved into a helper; ShareFinder.loop tidied with _next_server() / _may_send_more()).  The texts
+# are imported from the owning self-tests; a failed import skips them.  Two variants of C46 are NOT benign for C03 and are
+# expected as violations: the helper that pops whatever holds the shnum (= seeded change C03-I: a repeated DEAD of an
+# abandoned share evicts its replacement) and the loop that takes the next server before the request-limit test (the
+# server taken on a pass that is at the limit is dropped and never queried).
+def _adopt(modname, ids):
+    out = []
+    try:
+        import importlib
+        mod = importlib.import_module("." + modname, __package__)
+        theirs = {m.id: m for m in mod.MUTANTS}
+    except Exception:
+        return out
+    for (mid, expect) in ids:
+        m = theirs.get(mid)
+        if m is None:
+            continue
+        rest = mid[len("benign-"):] if mid.startswith("benign-") else mid
+        out.append(M(("benign-%s-%s" if expect is None else "not-benign-here-%s-%s") % (modname, rest),
+                     m.path, m.old, m.new, expect, edits=list(m.edits)))
+    return out
+
+
+MUTANTS += _adopt("C46", [
+    ("benign-bra-dispatch-with-forget-share-helper-faithful", None),
+    ("benign-bra-dispatch-helper-with-other-parameter-names", None),
+    ("benign-bra-dispatch-helper-pops-whatever-is-active", "C03.12"),
+    ("benign-finder-loop-tidied-with-helpers-faithful", None),
+    ("benign-finder-loop-helpers-limit-flag-in-a-local", None),
+    ("benign-finder-loop-helpers-server-taken-before-the-limit-test", "C03.4"),
+])
+MUTANTS += _adopt("C01", [
+    ("benign-helpers-limit-checked-before-the-take", None),
+])
